@@ -115,7 +115,7 @@ PROPS = {
     "C07": {
         "module": "GtfsVerif.Props.C07",
         "trusted_base": RT_TB,
-        "partial": ["permutation invariance is one theorem for no extension and the NYCT trips extension (C07_parse_perm_invariant: Trips identical including each trip's vehicle reference, identified Vehicles identical including each vehicle's trip reference, id-less Vehicles the same multiset each with its own entity's trip); for the NYCT alerts extension, whose pre-pass groups elevator alerts by first occurrence, the statement is carried by the correspondence (6 entity orders per case on model and implementation); alerts keep feed order (C02_alerts_exact)"],
+        "partial": ["permutation invariance of Trips, Vehicles and their links is proved for every extension: C07_finish_perm_invariant over any pre-processed feed, C07_parse_perm_invariant for no extension and the NYCT trips extension (entity-by-entity pre-pass), C07_parse_perm_invariant_alerts for the NYCT alerts extension, whose pre-pass groups elevator alerts by first occurrence and is therefore order-sensitive: what it leaves of an elevator alert names no trip and no vehicle (prepass_alerts_mentions, an invariant of the pre-pass fold) and everything else is rewritten entity by entity; id-less Vehicles are the same multiset, each with its own entity's trip; alerts keep feed order (C02_alerts_exact, C17_alerts_end_to_end), the stops of an elevator group are the same set for every order (C17_group_stops_perm)"],
         "assumptions": [],
     },
     "C12": {
@@ -230,7 +230,7 @@ MANIFEST_TEXT = {
         "technique": "Lean 4 proof over the association tables / link resolution of the model + pointer-walk oracle",
     },
     "C07": {
-        "text": "Theorems for every message and extension: TripID.Less is a strict total order on parser-produced identifiers (lexicographic key), Trips is strictly increasing in it (state invariant of the merge loop by induction over entities: keys distinct, well-formed, entry id = key; mergeSort sortedness), Vehicles has no duplicate identifier; own-entity-wins for any position of the own entity among references; mentions of different trips commute. Permutation invariance of Trips, Vehicles and the links between them for conflict-free messages is one theorem (closed form of merging one key's mentions, closed form of link resolution over the vehicle items of the message, uniqueness of a sorted permutation); every case is also parsed in 6 entity orders on model and implementation.",
+        "text": "Theorems for every message and extension: TripID.Less is a strict total order on parser-produced identifiers (lexicographic key), Trips is strictly increasing in it (state invariant of the merge loop by induction over entities: keys distinct, well-formed, entry id = key; mergeSort sortedness), Vehicles has no duplicate identifier; own-entity-wins for any position of the own entity among references; mentions of different trips commute. Permutation invariance of Trips, Vehicles and the links between them for conflict-free messages is proved for every extension, including the NYCT alerts extension whose pre-pass is order-sensitive (what it leaves of an elevator alert names no trip and no vehicle; closed form of merging one key's mentions, closed form of link resolution over the vehicle items of the message, uniqueness of a sorted permutation); every case is also parsed in 6 entity orders on model and implementation.",
         "note": "Trusted: Lean kernel, harness. sort.Slice is modelled as a sort; output claimed only where keys are distinct (proved).",
         "technique": "Lean 4 proof (strict total order via lexicographic keys, loop invariant by induction) + permutation correspondence",
     },
